@@ -73,7 +73,11 @@ func (c *FnCtx) execInstr(fr *Frame, st *State, instr ssa.Instruction) {
 		x := c.val(fr, i.X)
 		si := c.ty.structInfoOf(i.X.Type())
 		ft := i.X.Type().Underlying().(*types.Struct).Field(i.Field).Type()
-		fr.vals[i] = Val{T: ft, E: c.sc.Define("fld", c.ty.SortOf(ft), App(si.fields[i.Field], x.E))}
+		fv := Val{T: ft, E: c.sc.Define("fld", c.ty.SortOf(ft), App(si.fields[i.Field], x.E))}
+		if n, ok := i.X.Type().(*types.Named); ok {
+			fv.From = n.Obj().Name() + "." + i.X.Type().Underlying().(*types.Struct).Field(i.Field).Name()
+		}
+		fr.vals[i] = fv
 	case *ssa.IndexAddr:
 		x := c.val(fr, i.X)
 		idx := c.val(fr, i.Index).E
@@ -278,6 +282,11 @@ func (c *FnCtx) execUnOp(fr *Frame, st *State, i *ssa.UnOp) {
 		v := c.load(st, l, i.Type())
 		v.T = i.Type()
 		c.afterGuardedLoad(st, l, &v, mu)
+		if l.Kind == locField && len(l.Path) == 1 {
+			if n, ok := l.RootT.(*types.Named); ok {
+				v.From = n.Obj().Name() + "." + l.RootT.Underlying().(*types.Struct).Field(l.Path[0]).Name()
+			}
+		}
 		fr.vals[i] = v
 	case token.NOT:
 		fr.vals[i] = Val{T: i.Type(), E: Not(x.E)}
